@@ -721,6 +721,7 @@ def segment_section(ck):
     ck.section("segment", calls=ncalls, raised=nraise, model_cases=len(terms))
 
 HDR_AL = ("From Coq Require Import List ZArith QArith.\n"
+          "From NV.Generated Require Import ClusteringFrags.\n"
           "From NV.C14 Require Import ModelAL.\n")
 
 
